@@ -193,7 +193,10 @@ def run_case(case):
                "strand": desc["builds"][build]["strand"] if desc else None, "pseudogene": bool(desc["pseudogene"]) if desc else None}
         if not res["archive"]:
             return res
-        r2, cap2 = run_main(["genotype", archive, "--gene", yml, "--output", out2] + pargs)
+        # "with the same parameters": the profile option of the original run is given again (for an archive only its alias handling
+        # matters: exome / wxs / wes switch copy-number calling off on the Gene object, which is not part of the dump)
+        prof_arg = ["--profile", case["profile"]] if case.get("shipped") else ["--profile", prof["profile"]]
+        r2, cap2 = run_main(["genotype", archive, "--gene", yml, "--output", out2] + prof_arg + pargs)
         res["run2"] = r2
         res["out1"] = open(out1).read() if os.path.exists(out1) else None
         res["out2"] = open(out2).read() if os.path.exists(out2) else None
@@ -503,6 +506,16 @@ def shipped_cases():
              "params": ["minor_phase_vars=10"]}]
 
 
+def alias_cases(quick):
+    """profile ALIASES of the command line (exome / wxs / wes: copy-number calling off and min_coverage 5; wgs; pgrnseq-v1..3) are
+    resolved inside genotype(), partly on the Gene object: a run under an alias and the replay of its archive under the same alias"""
+    from aldy.common import script_path
+    bam = script_path("aldy.tests.resources/NA10860.bam")
+    names = ["exome"] if quick else ["exome", "wxs", "wes", "wgs"]
+    return [{"seed": 2 + i, "stream": "profile-alias", "shipped": True, "gene": "cyp2d6", "bam": bam, "profile": n,
+             "params": ["minor_phase_vars=10"]} for i, n in enumerate(names)]
+
+
 def run(chk):
     chk.rule = ("a case is a seed: generated database (both strands, with/without pseudogene), profile (YAML or BAM), simulated 2-4 copy "
                 "sample; streams plain / indels / structures / neutral-gap / outside-deletion / params; non-trivial = the run produced a "
@@ -510,6 +523,7 @@ def run(chk):
     chk.build()
     n = 24 if chk.tier == "quick" else 120
     cases = load_corpus() + gen_cases(chk.rng, n)
+    cases += alias_cases(chk.tier == "quick")
     if chk.tier == "thorough":
         cases += shipped_cases()
     evaluate(chk, cases, timeout=150 if chk.tier == "quick" else 600)
